@@ -10,9 +10,12 @@ import json, os, subprocess, sys, time, re, hashlib, shutil, random
 
 ROOT = os.path.dirname(os.path.dirname(os.path.abspath(__file__)))
 SPEC = os.path.join(ROOT, "spec")
-WORK = os.path.join(ROOT, "work")
-VH = os.path.join(ROOT, "harness", "target", "release", "vh")
-REPO = "/repo"
+# development aid only (never used by the registered commands): a scratch copy of the harness that points at a scratch clone of
+# /repo, so that checks can be developed while a seeded change is applied to /repo itself
+HARNESS = os.environ.get("VERIF_DEV_HARNESS", os.path.join(ROOT, "harness"))
+WORK = os.environ.get("VERIF_DEV_WORK", os.path.join(ROOT, "work"))
+VH = os.path.join(HARNESS, "target", "release", "vh")
+REPO = os.environ.get("VERIF_DEV_REPO", "/repo")
 
 
 class ToolError(Exception):
@@ -28,7 +31,7 @@ def log(*a):
 
 def harness_build():
     env = dict(os.environ, CARGO_NET_OFFLINE="true")
-    r = subprocess.run(["cargo", "build", "--release", "--offline"], cwd=os.path.join(ROOT, "harness"),
+    r = subprocess.run(["cargo", "build", "--release", "--offline"], cwd=HARNESS,
                        env=env, stdout=subprocess.PIPE, stderr=subprocess.STDOUT, text=True)
     if r.returncode != 0:
         log(r.stdout[-4000:])
@@ -315,7 +318,7 @@ def check_e0(wd):
 def tree_hash():
     """hash of everything a cached observation depends on: /repo sources, specs, harness, driver"""
     h = hashlib.sha256()
-    for base, exts in ((REPO, (".rs", ".toml")), (SPEC, (".tla", ".cfg")), (os.path.join(ROOT, "harness", "src"), (".rs",)),
+    for base, exts in ((REPO, (".rs", ".toml")), (SPEC, (".tla", ".cfg")), (os.path.join(HARNESS, "src"), (".rs",)),
                        (os.path.join(ROOT, "driver"), (".py",))):
         for dp, dn, fn in sorted(os.walk(base)):
             if "/target" in dp or "/.git" in dp:
@@ -329,16 +332,16 @@ def tree_hash():
 
 GEN_FAMILIES = {
     # family: (cfg, quick sample size, thorough sample size)   (None = all)
-    "G1a_1": ("MC_Gen_G1a_1.cfg", 2500, None),
-    "G1a_2": ("MC_Gen_G1a_2.cfg", 800, None),
-    "G1b": ("MC_Gen_G1b.cfg", 2000, None),
+    "G1a_1": ("MC_Gen_G1a_1.cfg", 1200, None),
+    "G1a_2": ("MC_Gen_G1a_2.cfg", 500, None),
+    "G1b": ("MC_Gen_G1b.cfg", 1200, None),
     "G1c": ("MC_Gen_G1c.cfg", None, None),
-    "G2p_2": ("MC_Gen_G2p_2.cfg", None, None),
-    "G2p_3s": ("MC_Gen_G2p_3s.cfg", 700, 0),
+    "G2p_2": ("MC_Gen_G2p_2.cfg", 900, None),
+    "G2p_3s": ("MC_Gen_G2p_3s.cfg", 400, 0),
     "G2p_3": ("MC_Gen_G2p_3.cfg", 0, 8000),
-    "G2s": ("MC_Gen_G2s.cfg", 1200, None),
+    "G2s": ("MC_Gen_G2s.cfg", 600, None),
     "G7": ("MC_Gen_G7.cfg", None, None),
-    "G8": ("MC_Gen_G8.cfg", None, None),
+    "G8": ("MC_Gen_G8.cfg", 220, None),
     "G8b": ("MC_Gen_G8b.cfg", None, None),
 }
 
@@ -360,12 +363,14 @@ def gen_pipeline(tier, seed):
     fam_counts, design = {}, {"c01_false": 0, "c02_false": 0, "c03_false": 0, "teq_unsound": 0}
     procs = []
     fams = [f for f, (cfg, q, t) in GEN_FAMILIES.items() if (q if tier == "quick" else t) != 0]
-    # MC_Gen runs: two at a time with 8 workers each
-    for i in range(0, len(fams), 2):
-        batch = fams[i:i + 2]
+    # MC_Gen runs: all families at once (quick) / four at a time (thorough), a few workers each
+    step = len(fams) if tier == "quick" else 4
+    for i in range(0, len(fams), step):
+        batch = fams[i:i + step]
         ps = [(f, tlc_start(os.path.join(SPEC, "mc", "MC_Gen.tla"), os.path.join(SPEC, "mc", GEN_FAMILIES[f][0]),
-                            os.path.join(wd, f"mc_{f}.out"), os.path.join(wd, f"md_{f}"), workers=8, xmx="12g")) for f in batch]
+                            os.path.join(wd, f"mc_{f}.out"), os.path.join(wd, f"md_{f}"), workers=3 if tier == "quick" else 4, xmx="6g")) for f in batch]
         tlc_wait([p for _, p in ps], 900 if tier == "quick" else 3000)
+    log(f"[gen] MC done after {time.time() - t0:.0f}s")
     acts = {}
     for f in fams:
         text = open(os.path.join(wd, f"mc_{f}.out")).read()
@@ -404,7 +409,7 @@ def gen_pipeline(tier, seed):
     # closed sub-registries of real chain metadata (scale-info's retain around seeded id choices), family G6
     meta = os.path.join(REPO, "artifacts", "polkadot_metadata.scale")
     if os.path.exists(meta):
-        subprocess.run([VH, "polkadot", meta, os.path.join(wd, "polkadot.ndjson"), str(seed), str(120 if tier == "quick" else 1200), "30"], check=True)
+        subprocess.run([VH, "polkadot", meta, os.path.join(wd, "polkadot.ndjson"), str(seed), str(60 if tier == "quick" else 1200), "30"], check=True)
         for e in read_ndjson(os.path.join(wd, "polkadot.ndjson")):
             cases.append({"fam": "G6", "cf": False, "tog": False, "reg": e["reg"], "settings": base, "roots": [0],
                           "model": {"res": "", "c01": True, "c02": True, "c03": True, "teq_sound": True}, "name": e["name"],
@@ -428,10 +433,29 @@ def gen_pipeline(tier, seed):
     bad_setup = [o for o in obs if o["runs"][0].get("setup") != "ok"]
     if bad_setup:
         raise ToolError(f"harness could not set up case {bad_setup[0]['case']}: {bad_setup[0]['runs'][0].get('setup')}")
-    v1, s1 = tv_parallel(os.path.join(SPEC, "tv", "TV_Gen.tla"), os.path.join(SPEC, "tv", "TV_Gen.cfg"),
-                         os.path.join(wd, "obs.ndjson"), wd, nproc=8, workers=2)
-    v2, s2 = tv_parallel(os.path.join(SPEC, "tv", "TV_Dedup.tla"), os.path.join(SPEC, "tv", "TV_Dedup.cfg"),
-                         os.path.join(wd, "obs.ndjson"), wd, nproc=8, workers=2)
+    log(f"[gen] harness done after {time.time() - t0:.0f}s")
+    # TV_Gen and TV_Dedup judge the same observations concurrently (separate work directories)
+    import threading
+    box = {}
+    wd2 = os.path.join(wd, "dedup")
+    os.makedirs(wd2, exist_ok=True)
+
+    def run_tv(name, module, d):
+        try:
+            box[name] = tv_parallel(os.path.join(SPEC, "tv", module), os.path.join(SPEC, "tv", module.replace(".tla", ".cfg")),
+                                    os.path.join(wd, "obs.ndjson"), d, nproc=8, workers=1)
+        except Exception as e:      # re-raised below
+            box[name] = e
+    th = [threading.Thread(target=run_tv, args=("gen", "TV_Gen.tla", wd)), threading.Thread(target=run_tv, args=("dedup", "TV_Dedup.tla", wd2))]
+    for t in th:
+        t.start()
+    for t in th:
+        t.join()
+    for k in ("gen", "dedup"):
+        if isinstance(box[k], Exception):
+            raise box[k]
+    (v1, s1), (v2, s2) = box["gen"], box["dedup"]
+    log(f"[gen] TV done after {time.time() - t0:.0f}s")
     if len(v1) != len(recs) or len(v2) != len(recs):
         raise ToolError(f"TV judged {len(v1)}/{len(v2)} of {len(recs)} cases")
     by1 = {v["case"]: v for v in v1}
@@ -478,6 +502,12 @@ def t3_compilable(reg):
         d = e["def"]
         if d["k"] == "prim" and d["p"] in ("char", "u256", "i256"):
             return False
+        # Compact<T> needs T: HasCompact - only unsigned primitives are kept (wrapper structs would need a CompactAs derive)
+        if d["k"] == "compact" and not (reg[d["of"]]["def"]["k"] == "prim" and reg[d["of"]]["def"]["p"] in ("u8", "u16", "u32", "u64", "u128")):
+            return False
+        # the codec's Duration rejects nanoseconds >= 10^9: not every encoding of its (u64, u32) registry shape is a Duration
+        if e["path"] == ["Duration"]:
+            return False
         if e["path"] in (["BTreeMap"], ["BTreeSet"], ["BinaryHeap"]):
             k = e["params"][0]["ty"]
             if k < 0 or reg[k]["def"]["k"] != "prim" or reg[k]["def"]["p"] == "str" and False:
@@ -494,7 +524,10 @@ def t3_pipeline(tier, seed):
         return json.load(open(cpath))
     wd = workdir("t3")
     rnd = random.Random(seed)
-    ok_cases = {v["case"] for v in g["verdicts"] if v["gen"] == "ok" and v["cf"] and v["fam"] not in ("G7", "G8", "G8b")}
+    # the byte-level consequence is judged on the cases that are structurally faithful (structural failures are judged - and
+    # attributed to known findings - by TV_Gen)
+    ok_cases = {v["case"] for v in g["verdicts"] if v["gen"] == "ok" and v["cf"] and v["fam"] not in ("G7", "G8", "G8b", "G6")
+                and not any(x.startswith(("C01.", "C02.", "C03.")) for x in v["failed"])}
     cases = [c for c in read_ndjson(g["cases_path"]) if c["case"] in ok_cases and t3_compilable(c["runs"][0]["reg"])]
     rnd.shuffle(cases)
     cases = cases[: 120 if tier == "quick" else 1500]
@@ -503,41 +536,61 @@ def t3_pipeline(tier, seed):
         recs.append({"case": i, "fam": c["fam"], "orig": c["case"], "runs": [{"reg": c["runs"][0]["reg"], "settings": T3_SETTINGS}]})
     write_ndjson(os.path.join(wd, "cases.ndjson"), recs)
     crate = os.path.join(wd, "crate")
-    shutil.copytree(os.path.join(ROOT, "harness", "t3_template"), crate, ignore=shutil.ignore_patterns("target"))
+    shutil.copytree(os.path.join(HARNESS, "t3_template"), crate, ignore=shutil.ignore_patterns("target"))
     r = subprocess.run([VH, "emit", os.path.join(wd, "cases.ndjson"), os.path.join(crate, "src", "cases.rs"), os.path.join(wd, "manifest.ndjson"), "2"],
                        stdout=subprocess.PIPE, stderr=subprocess.STDOUT, text=True)
     if r.returncode != 0:
         raise ToolError("vh emit failed: " + r.stdout[-1000:])
     manifest = {m["case"]: m for m in read_ndjson(os.path.join(wd, "manifest.ndjson"))}
-    failed_cases = {}
     src_path = os.path.join(crate, "src", "cases.rs")
-    for attempt in range(6):
-        b = subprocess.run(["cargo", "build", "--release", "--offline", "--message-format=short"], cwd=crate, stdout=subprocess.PIPE, stderr=subprocess.STDOUT, text=True,
-                           env=dict(os.environ, CARGO_NET_OFFLINE="true"))
+    all_lines = open(src_path).read().split("\n")
+    chunks = {cid: all_lines[mf["first_line"] - 1: mf["last_line"]] for cid, mf in manifest.items() if mf.get("emitted")}
+    failed_cases = {}
+
+    def build(selected):
+        """write the selected case modules, compile; returns (ok, {case: codes} attributed by line, raw output)"""
+        lines, ranges = [], {}
+        for cid in selected:
+            ranges[cid] = (len(lines) + 1, len(lines) + len(chunks[cid]))
+            lines += chunks[cid]
+        lines.append("pub fn run_all() {")
+        lines += [f"    case_{cid}::run();" for cid in selected]
+        lines.append("}")
+        open(src_path, "w").write("\n".join(lines) + "\n")
+        b = subprocess.run(["cargo", "build", "--release", "--offline", "--message-format=short"], cwd=crate, stdout=subprocess.PIPE,
+                           stderr=subprocess.STDOUT, text=True, env=dict(os.environ, CARGO_NET_OFFLINE="true"))
         if b.returncode == 0:
-            break
-        # attribute rustc errors to cases by line number, drop those modules and rebuild
+            return True, {}, b.stdout
         bad = {}
         for m in re.finditer(r"src/cases\.rs:(\d+):\d+: error(?:\[(E\d+)\])?", b.stdout):
             ln, code = int(m.group(1)), m.group(2) or "error"
-            for cid, mf in manifest.items():
-                if mf.get("emitted") and mf["first_line"] <= ln <= mf["last_line"]:
+            for cid, (a, z) in ranges.items():
+                if a <= ln <= z:
                     bad.setdefault(cid, set()).add(code)
-        if not bad:
-            raise ToolError("T3: rustc failed without attributable errors:\n" + b.stdout[-2000:])
-        lines = open(src_path).read().split("\n")
-        for cid, codes in bad.items():
-            failed_cases[cid] = sorted(codes)
-            mf = manifest[cid]
-            for ln in range(mf["first_line"] - 1, mf["last_line"]):
-                lines[ln] = ""          # keep line numbers stable
-            lines = [l for l in lines]
-        text = "\n".join(lines)
-        for cid in bad:
-            text = text.replace(f"    case_{cid}::run();", "")
-        open(src_path, "w").write(text)
-    else:
-        raise ToolError("T3: rustc still failing after removing the offending modules")
+        return False, bad, b.stdout
+
+    def settle(selected, depth=0):
+        """returns the sub-list of `selected` that compiles together; failing modules go to failed_cases"""
+        if not selected:
+            return []
+        ok, bad, out = build(selected)
+        if ok:
+            return selected
+        if bad:
+            for cid, codes in bad.items():
+                failed_cases[cid] = sorted(codes)
+            return settle([c for c in selected if c not in bad], depth + 1)
+        codes = sorted(set(re.findall(r"error\[(E\d+)\]", out))) or ["error"]
+        if len(selected) == 1:
+            failed_cases[selected[0]] = codes      # errors without a source location (e.g. E0275 overflow): found by bisection
+            return []
+        mid = len(selected) // 2
+        return settle(selected[:mid], depth + 1) + settle(selected[mid:], depth + 1)
+
+    good = settle(sorted(chunks))
+    ok, bad, out = build(good)
+    if not ok:
+        raise ToolError("T3: modules that compile separately do not compile together:\n" + out[-1500:])
     run = subprocess.run([os.path.join(crate, "target", "release", "t3")], stdout=subprocess.PIPE, stderr=subprocess.PIPE, text=True)
     results = {}
     for l in run.stdout.splitlines():
@@ -547,7 +600,7 @@ def t3_pipeline(tier, seed):
     obs = []
     for rcd in recs:
         mf = manifest.get(rcd["case"], {"emitted": False, "checks": []})
-        compiled = mf.get("emitted", False) and rcd["case"] not in failed_cases
+        compiled = mf.get("emitted", False) and rcd["case"] in good
         checks = []
         for ch in mf["checks"]:
             x = results.get((rcd["case"], ch["k"]))
@@ -833,7 +886,7 @@ def check_c16(tier, seed):
     res.nontrivial = sum(1 for v in verdicts if v["nontrivial"])
     res.exhaustive = n_all == len(recs)
     res.extra["histories_model_checked"] = n_all
-    res.rule = ("MC: every history of the 18-call alphabet (global / per-type / recursive derives and attributes; insert, insert-if-absent, extend with valid arguments, a relative target, "
+    res.rule = ("MC: every history of the 19-call alphabet (global / per-type / recursive derives and attributes; insert, insert-if-absent, extend with valid arguments, a relative target, "
                 "parenthesised generics, a non-identifier source argument, a non-path target argument, a crate:: target) up to length 3 (quick) / 4 (thorough) with the invariants "
                 "'derives are unions by comprehension over the history', 'rule = last accepted insert', 'rejected call changes nothing', 'one rule per path', 'documented kinds'; "
                 "TV: a seeded sample (quick) of the maximal histories is replayed call by call on the real builders, after every call the result kind and the observable state "
@@ -918,7 +971,7 @@ def registries_for_description(wd, tier, seed, res, mc_module, fams, extra_const
 def check_c13(tier, seed):
     res = Result("C13", tier, seed)
     wd = workdir("C13")
-    regs = registries_for_description(wd, tier, seed, res, "MC_C13.tla", ["G1c", "G8", "G1a_1", "G2p_2"])
+    regs = registries_for_description(wd, tier, seed, res, "MC_C13.tla", ["G1c", "G8", "G1a_1", "G1a_2", "G2p_2"])
     n_all = len(regs)
     rnd = random.Random(seed)
     if tier == "quick":
